@@ -196,6 +196,24 @@ def run(chk, prog):
             ok = (role_kw == "probs" and not squash) or (role_kw == "logits" and squash)
         chk.require(bool(ok), "ENUM-WEIGHTS", f"{cn}.jvp_estimate", "softmax(probs)" if cn.startswith("Categorical") else "weights",
                     derived=f"sampler passes the parameter as `{role_kw}=`; weights computed as {der}", expected="weights use the parameter in the same role: probs= -> the probabilities themselves", where=w)
+    # reparameterised Gaussians: one independent unit-normal draw per coordinate, from the split-off sub key; result loc + scale * eps
+    for cn, shape_pred, exp in (("NormalREPARAM", lambda s_: True, "eps ~ N(0, 1)"),
+                                ("MvNormalDiagREPARAM", lambda s_: dict(s_[3]).get("sample_shape") is not None and mentions_any(dict(s_[3])["sample_shape"], lambda x: is_t(x, "attr") and x[2] == "shape"), "eps ~ N(0, 1) with sample_shape=loc.shape"),
+                                ("MvNormalREPARAM", lambda s_: s_[2] and is_call(s_[2][0], "len"), "eps ~ N(0, 1) with len(mu) draws")):
+        ci = prog.cls(cn, PRIM)
+        evn = Evaluator(prog)
+        rn = evn.eval_fn(ci.methods["before_tail_call"], ci.module, ci)
+        jv_ = calls(rn.ret, "jvp")
+        body_ = None
+        if len(jv_) == 1 and evn.closure_of(jv_[0][2][0]) is not None:
+            nparams = len(evn.closure_of(jv_[0][2][0]).node.args.args)
+            body_ = evn.apply(jv_[0][2][0], [P(f"$p{i}") for i in range(nparams)], module=ci.module, cls=ci)
+        scope_ = ("tuple", (rn.ret, body_ if body_ is not None else C(None)))
+        smp = [x for x in subterms(scope_) if is_mcall(x, "sample") and is_call(x[1][1], "Normal")]
+        smp = list(dict.fromkeys(smp))
+        okn = len(jv_) == 1 and len(smp) == 1 and shape_pred(smp[0]) and dict(smp[0][3]).get("seed") is not None and dict(smp[0][3])["seed"] != P("key") and is_call(smp[0][1][1], "Normal") \
+            and dict(smp[0][1][1][3]).get("loc") == C(0.0) and dict(smp[0][1][1][3]).get("scale") == C(1.0)
+        chk.require(bool(okn), "REPARAM-NOISE", f"{cn}.before_tail_call", "independent standard-normal noise per coordinate", derived=show(smp[0])[:200] if smp else "no noise draw", expected=exp + ", drawn with the split-off sub key", where=f"{ci.module.rel}:{ci.methods['before_tail_call'].lineno}")
     # Baseline: subtract b inside the continuation, add it back outside
     B = prog.cls("Baseline", PRIM)
     evb = Evaluator(prog)
@@ -280,6 +298,10 @@ def run(chk, prog):
         okd_ = is_call(dtree, "dual_tree") and len(dtree[2]) == 2 and mentions_any(dtree[2][0], lambda x: is_t(x, "proj") and x[2] == 0 and is_call(x[1], "flat_unzip")) and not mentions_any(dtree[2][0], lambda x: is_t(x, "proj") and x[2] == 1 and is_call(x[1], "flat_unzip")) \
             and mentions_any(dtree[2][1], lambda x: is_t(x, "proj") and x[2] == 1 and is_call(x[1], "flat_unzip")) and not mentions_any(dtree[2][1], lambda x: is_t(x, "proj") and x[2] == 0 and is_call(x[1], "flat_unzip"))
         chk.require(okd_, "ROLE-TANGENT", "eval_jaxpr_iterate_dual/dual_tree", "the primitive's arguments paired (primals, tangents) in that order", derived=show(dtree)[:240], expected="Dual.dual_tree(<from flat primals>, <from flat tangents>)", where=whereI)
+    sl_ = [x for x in subterms(jve[0] if jve else rd.ret) if is_t(x, "index") and is_t(x[2], "sliceobj")]
+    okrc = any(is_t(x[2][1], "index") and x[2][1][2] == C("num_consts") and x[2][2] == C(None) and x[2][3] == C(None) for x in sl_) and len({x[2] for x in sl_}) == 1
+    chk.require(bool(okrc), "ISP-CONSTS", "eval_jaxpr_iterate_dual/operands", "sample-site operands: drop the PREPENDED constants", derived=str([show(x[2]) for x in sl_][:2]),
+                expected="duals[params['num_consts']:] unflattened with in_tree", where=whereI)
     chk.require(bool(okk), "KONT-ARITY", "eval_jaxpr_iterate_dual/konts", "continuations passed as (pure, dual), as the primitives unpack them", derived=der, expected="adev_prim.jvp_estimate(key, dual_tree, (_sample_pure_kont, _sample_dual_kont))", where=whereI)
     for kn, node_ in (("dual", dkont), ("pure", pkont)):
         clo = [x for x in subterms(rd.ret) if evd.closure_of(x) is not None and evd.closure_of(x).node is node_]
